@@ -129,7 +129,7 @@ def run_check(prop, tree, root, tier="quick", extra=()):
     return {"rc": p.returncode, "viol": viol, "info": info, "wall": time.time() - t0, "replay_reproduces": replay_ok, "stderr": p.stderr[-300:]}
 
 
-def judge_patch(name, patch, expect_props, root, report, expect_inconclusive=False):
+def judge_patch(name, patch, expect_props, root, report, expect_inconclusive=False, allow_c13=None):
     tree = make_copy(patch, root)
     tests_ok, tail = run_tests(tree)
     res = {"tests_pass": tests_ok, "tests": tail, "checks": {}}
@@ -151,7 +151,10 @@ def judge_patch(name, patch, expect_props, root, report, expect_inconclusive=Fal
         if not any(p in caught for p in expect_props):
             ok = False
     elif caught:
-        ok = False
+        # a rewrite that (knowingly) shares the accepted torn-frame limitation may be reported by C13 for
+        # exactly that and nothing else; C11 must stay silent
+        if not (allow_c13 and caught == ["C13"] and any(allow_c13 in i for i in res["checks"]["C13"]["info"])):
+            ok = False
     res["caught_by"] = caught
     res["expected"] = expect_props
     res["ok"] = ok
@@ -215,7 +218,10 @@ def seeded(names):
             name = "refactoring-" + os.path.basename(d)
             if not os.path.isdir(d) or (names and not any(n in name for n in names)):
                 continue
-            ok &= judge_patch(name, os.path.join(d, "patch.diff"), [], root, report)
+            allow = None
+            if os.path.exists(os.path.join(d, "meta.json")):
+                allow = json.load(open(os.path.join(d, "meta.json"))).get("c13_alarm_allowed_if_message_contains")
+            ok &= judge_patch(name, os.path.join(d, "patch.diff"), [], root, report, allow_c13=allow)
     finally:
         shutil.rmtree(root, ignore_errors=True)
     _save_report(os.path.join(HERE, "seeded", "REPORT.json"), report, bool(names))
